@@ -99,8 +99,10 @@ struct WFd {
   static constexpr bool checked = false;
   int fd;
   nop::FdWriter w;
-  explicit WFd(size_t) : fd(fakefd_create()), w(fd) { fakefd_get(fd)->chunk = 3; }  // the descriptor accepts at most 3 bytes per write()
-  ~WFd() { w.Clear(); fakefd_destroy(fd); }
+  // the writer reaches its place by move construction (as in Serializer<FdWriter>{FdWriter{fd}}); the moved-from object dies
+  static nop::FdWriter make(int fd) { nop::FdWriter first(fd); nop::FdWriter second(std::move(first)); return second; }
+  explicit WFd(size_t) : fd(fakefd_create()), w(make(fd)) { fakefd_get(fd)->chunk = 3; }  // the descriptor accepts at most 3 bytes per write()
+  ~WFd() { w.Clear(); w.Clear(); fakefd_destroy(fd); }  // Clear is idempotent: the descriptor is closed exactly once (g_fd_misuse)
   template <class T> St write(const T& v) { nop::Serializer<nop::FdWriter*> s{&w}; return s.Write(v); }
   size_t size() const { return fakefd_get(fd)->data.size(); }
   std::vector<uint8_t> bytes() const { return fakefd_get(fd)->data; }
@@ -235,8 +237,9 @@ struct RFd {
   static constexpr int lacks = CapHandle | CapSkip;
   int fd;
   nop::FdReader r;
-  RFd(const uint8_t* d, size_t n) : fd(fakefd_create(d, n)), r(fd) { fakefd_get(fd)->chunk = 3; }  // at most 3 bytes per read(), as a pipe may
-  ~RFd() { r.Clear(); fakefd_destroy(fd); }
+  static nop::FdReader make(int fd) { nop::FdReader first(fd); nop::FdReader second(std::move(first)); return second; }
+  RFd(const uint8_t* d, size_t n) : fd(fakefd_create(d, n)), r(make(fd)) { fakefd_get(fd)->chunk = 3; }  // at most 3 bytes per read(), as a pipe may
+  ~RFd() { r.Clear(); r.Clear(); fakefd_destroy(fd); }
   template <class T> St read(T* v) { nop::Deserializer<nop::FdReader*> s{&r}; return s.Read(v); }
   size_t consumed() const { return fakefd_get(fd)->rpos; }
   static int trunc_error() { return (int)nop::ErrorStatus::ReadLimitReached; }
